@@ -89,3 +89,23 @@ func HeaderChan(p []byte) uint32 {
 func HeaderConn(p []byte) uint16 {
 	return uint16(p[0]^0x5c) | uint16(p[1]^0x5c)<<8
 }
+
+// ParseHeader decodes the header of a payload of at least 16 bytes.
+func ParseHeader(p []byte) (h Header, ok bool) {
+	if len(p) < headerLen {
+		return h, false
+	}
+	var hb [headerLen]byte
+	for i := range hb {
+		hb[i] = p[i] ^ 0x5c
+	}
+	if hb[7] != 0xa5 {
+		return h, false
+	}
+	h.Conn = binary.LittleEndian.Uint16(hb[0:])
+	h.Chan = binary.LittleEndian.Uint32(hb[2:])
+	h.Dir = hb[6]
+	h.Seq = binary.LittleEndian.Uint32(hb[8:])
+	h.Len = binary.LittleEndian.Uint32(hb[12:])
+	return h, true
+}
